@@ -6,7 +6,7 @@ From RU Require Import Base.Prelude Base.Utf8 Model.AsciiSet Gen.Tables
   Model.PercentEncoding Model.HostT Model.UrlRecord Model.Parser Model.Setters Spec.Whatwg
   Proofs.C02_Parts Proofs.C01_Tables Proofs.C08_Input
   Proofs.C01_EqRun Proofs.C01_EqEnc Proofs.C01_EqApi Proofs.C01_EqOpaque Proofs.C01_EqRef
-  Proofs.C02_Path Proofs.C01_EqPathSpec Proofs.C01_EqPath.
+  Proofs.C02_Path Proofs.C01_EqPathSpec Proofs.C01_EqPath Proofs.C01_EqOverflow Proofs.C01_EqEmpty.
 
 (* outcome of the comparison: the specification succeeds with su, and the model either reports that
    the serialization outgrew u32 (ParseError::Overflow, which the Standard does not have) or succeeds
@@ -175,6 +175,21 @@ Proof.
   apply related_noauth; [exact Hne | apply spath_no_slash; reflexivity | exact W].
 Qed.
 
+(* ---------- class "empty reference": nothing left after cleaning, base can be a base ---------- *)
+Definition in_class_empty_ref (sb : spec_url) (input : list N) : bool :=
+  negb (has_opaque_path sb) && match spec_clean input with [] => true | _ => false end.
+
+Theorem class_empty_ref dbg hp hpo hd shp shs input b sb : related dbg shs b sb ->
+  in_class_empty_ref sb input = true ->
+  agree_rel dbg shs (parse_url dbg hp hpo hd None (Some b) input) (spec_basic_url_parse shp input (Some sb)).
+Proof.
+  intros R Hc. unfold in_class_empty_ref in Hc. apply andb_true_iff in Hc. destruct Hc as [H1 H2].
+  assert (has_opaque_path sb = false) as Hop by (destruct (has_opaque_path sb); [discriminate | reflexivity]).
+  destruct (spec_clean input) eqn:E; [|discriminate].
+  destruct (eq_empty_ref dbg hp hpo hd shp shs input b sb R Hop E) as (su & Hs & u & Hm & Hr).
+  exists su. split; [exact Hs|]. right. exists u. split; assumption.
+Qed.
+
 (* ---------- the proved classes, assembled ---------- *)
 (* comparison of outcomes: success with the same ten API strings (or the model's Overflow), or failure
    on both sides *)
@@ -199,6 +214,7 @@ Definition in_proved_class (sbase : option spec_url) (input : list N) : bool :=
   match sbase with
   | None => in_class_opaque input || in_class_pathonly input
   | Some sb => in_class_fragment_only input || in_class_query_only sb input || in_class_opaque_base_fail sb input
+               || in_class_empty_ref sb input
   end.
 
 Theorem partial_equivalence dbg hp hpo hd shp shs input base sbase :
@@ -206,12 +222,87 @@ Theorem partial_equivalence dbg hp hpo hd shp shs input base sbase :
   agree dbg shs (parse_url dbg hp hpo hd None base input) (spec_basic_url_parse shp input sbase).
 Proof.
   intros Hu Hb Hc. destruct base as [b|]; destruct sbase as [sb|]; cbn [base_rel] in Hb; try contradiction.
-  - cbn [in_proved_class] in Hc. apply orb_true_iff in Hc. destruct Hc as [Hc|Hc]; [apply orb_true_iff in Hc; destruct Hc as [Hc|Hc]|].
+  - cbn [in_proved_class] in Hc. apply orb_true_iff in Hc. destruct Hc as [Hc|Hc];
+      [apply orb_true_iff in Hc; destruct Hc as [Hc|Hc]; [apply orb_true_iff in Hc; destruct Hc as [Hc|Hc]|]|].
     + apply agree_of_ok, agree_rel_ok. apply class_fragment_only; assumption.
     + apply agree_of_ok, agree_rel_ok. apply class_query_only; assumption.
     + destruct (class_opaque_base_fail dbg hp hpo hd shp shs input b sb Hb Hc) as [[u ->] ->].
       cbn [agree]. eexists. reflexivity.
+    + apply agree_of_ok, agree_rel_ok. apply class_empty_ref; assumption.
   - cbn [in_proved_class] in Hc. apply orb_true_iff in Hc. destruct Hc as [Hc|Hc].
     + apply agree_of_ok. apply class_opaque; assumption.
     + apply agree_of_ok, agree_rel_ok. apply class_pathonly; assumption.
+Qed.
+
+(* ---------- the Overflow disjunct, made precise ---------- *)
+(* in every class with a successful outcome the model answers Overflow only if the href the Standard
+   prescribes is longer than u32::MAX bytes *)
+Theorem class_overflow_bound dbg hp hpo hd shp shs input base sbase su :
+  usv_list input -> base_rel dbg shs base sbase -> in_proved_class sbase input = true ->
+  parse_url dbg hp hpo hd None base input = PErr Overflow ->
+  spec_basic_url_parse shp input sbase = BDone su ->
+  U32_MAX_P < nlen (get_href shs su).
+Proof.
+  intros Hu Hb Hc E Hsu. destruct base as [b|]; destruct sbase as [sb|]; cbn [base_rel] in Hb; try contradiction.
+  - cbn [in_proved_class] in Hc. apply orb_true_iff in Hc. destruct Hc as [Hc|Hc];
+      [apply orb_true_iff in Hc; destruct Hc as [Hc|Hc]; [apply orb_true_iff in Hc; destruct Hc as [Hc|Hc]|]|].
+    + unfold in_class_fragment_only in Hc.
+      destruct (spec_clean input) as [|c f] eqn:Ec; [discriminate|]. cbn [starts_with_cp] in Hc.
+      apply N.eqb_eq in Hc. subst c.
+      exact (fragment_only_overflow_bound dbg hp hpo hd shp shs input b sb f su Hu Hb Ec E Hsu).
+    + unfold in_class_query_only in Hc. apply andb_true_iff in Hc. destruct Hc as [H1 H2].
+      destruct (spec_clean input) as [|c q] eqn:Ec; [discriminate|]. cbn [starts_with_cp] in H2.
+      apply N.eqb_eq in H2. subst c.
+      assert (has_opaque_path sb = false) as Hop by (destruct (has_opaque_path sb); [discriminate | reflexivity]).
+      exact (query_only_overflow_bound dbg hp hpo hd shp shs input b sb q su Hu Hb Hop Ec E Hsu).
+    + destruct (class_opaque_base_fail dbg hp hpo hd shp shs input b sb Hb Hc) as [[u Hf] _].
+      rewrite Hf in Hsu. discriminate.
+    + unfold in_class_empty_ref in Hc. apply andb_true_iff in Hc. destruct Hc as [H1 H2].
+      assert (has_opaque_path sb = false) as Hop by (destruct (has_opaque_path sb); [discriminate | reflexivity]).
+      destruct (spec_clean input) eqn:Ec; [|discriminate].
+      destruct (eq_empty_ref dbg hp hpo hd shp shs input b sb Hb Hop Ec) as (su' & _ & u & K & _).
+      rewrite K in E. discriminate.
+  - cbn [in_proved_class] in Hc. apply orb_true_iff in Hc. destruct Hc as [Hc|Hc].
+    + unfold in_class_opaque in Hc. rewrite spec_clean_is_ntnl_trim in Hc.
+      destruct (spec_scheme (ntnl (input_new_trim_c0 input))) as [[sch rest]|] eqn:Es; [|discriminate].
+      apply andb_true_iff in Hc. destruct Hc as [H1 H2].
+      destruct (spec_scheme_model _ _ _ Es) as (rem & Hs & <-).
+      assert (is_special_scheme sch = false) as Hns by (destruct (is_special_scheme sch); [discriminate | reflexivity]).
+      assert (starts_with_cp 47 (ntnl rem) = false) as H47 by (destruct (starts_with_cp 47 (ntnl rem)); [discriminate | reflexivity]).
+      exact (opaque_overflow_bound dbg hp hpo hd shp shs None input sch rem su Hu Hs (not_special_type sch Hns)
+               (split_of_starts_with_cp rem H47) E Hsu).
+    + unfold in_class_pathonly in Hc. rewrite spec_clean_is_ntnl_trim in Hc.
+      destruct (spec_scheme (ntnl (input_new_trim_c0 input))) as [[sch rest]|] eqn:Es; [|discriminate].
+      destruct rest as [|c0 rest']; [discriminate|].
+      destruct (N.eq_dec c0 47) as [->|Hne].
+      2:{ exfalso. destruct c0 as [|p]; [discriminate|]. do 6 (destruct p as [p|p|]; try discriminate). apply Hne. reflexivity. }
+      apply andb_true_iff in Hc. destruct Hc as [Hc H3]. apply andb_true_iff in Hc. destruct Hc as [H1 H2].
+      destruct (spec_scheme_model _ _ _ Es) as (rem & Hs & Hrem).
+      assert (is_special_scheme sch = false) as Hns by (destruct (is_special_scheme sch); [discriminate | reflexivity]).
+      assert (starts_with_cp 47 rest' = false) as H47 by (destruct (starts_with_cp 47 rest'); [discriminate | reflexivity]).
+      destruct (slash_split rem rest' Hrem H47) as (rem' & Er' & Hss & Hsp). subst rest'.
+      exact (pathonly_overflow_bound dbg hp hpo hd shp shs None input sch rem rem' su Hu Hs (not_special_type sch Hns)
+               Hss Hsp Hrem H47 H3 E Hsu).
+Qed.
+
+(* the assembled statement with the precise Overflow clause *)
+Definition agree_strict (dbg : bool) (shs : spec_host -> list N) (m : pres url) (s : parse_outcome) : Prop :=
+  match s with
+  | BDone su => (m = PErr Overflow /\ U32_MAX_P < nlen (get_href shs su))
+                \/ exists u, m = POk u /\ api_of_model dbg u = Some (spec_api_list shs su)
+  | BFailure _ => exists e, m = PErr e
+  | BOutOfFuel => False
+  end.
+
+Theorem partial_equivalence_strict dbg hp hpo hd shp shs input base sbase :
+  usv_list input -> base_rel dbg shs base sbase -> in_proved_class sbase input = true ->
+  agree_strict dbg shs (parse_url dbg hp hpo hd None base input) (spec_basic_url_parse shp input sbase).
+Proof.
+  intros Hu Hb Hc.
+  pose proof (partial_equivalence dbg hp hpo hd shp shs input base sbase Hu Hb Hc) as A.
+  pose proof (class_overflow_bound dbg hp hpo hd shp shs input base sbase) as B.
+  unfold agree, agree_strict in *.
+  destruct (spec_basic_url_parse shp input sbase) as [su|u|]; [|exact A | exact A].
+  destruct A as [E|K]; [left; split; [exact E|] | right; exact K].
+  exact (B su Hu Hb Hc E eq_refl).
 Qed.
